@@ -554,5 +554,6 @@ package server
 // from C10 "what is read back equals what was configured": ListStatement reports the origin condition of a statement
 //@ props C10
 //@ func toStatementApi
-//@   claims at-return
+//@   claims at-return at-call
 //@   at-return requires called(ToOriginApi)
+//@   at-call ToOriginApi(s.Conditions requires arg0 == s.Conditions.BgpConditions.OriginEq
